@@ -1,0 +1,7 @@
+//go:build !verif
+
+package marching
+
+func verifYield(site string) {}
+
+func verifWorkers(numCPU int) int { return numCPU }
